@@ -151,6 +151,20 @@ Theorem C19_run_rows_accepted :
 Proof. exact run_rows_accepted_lemma. Qed.
 Print Assumptions C19_run_rows_accepted.
 
+(* the positive direction.  `gaps_ok`: each file starts at the final timestamp of the previous one or one
+   second later — the binaries' own `ensure!(initial - previous_final <= 1)` ("missing file"), a fourth
+   refusal that the property text does not list; a contiguous run passes it in both overflow modes *)
+Theorem C19_run_rows_complete :
+  forall (P : Type) (sort : list (hdr (file P)) -> list (hdr (file P))) m (args files : list (file P)),
+  sorting sort -> args <> [] ->
+  Permutation files args -> StronglySorted (fun f g => f_t0 f < f_t0 g) files ->
+  (forall f g, In f args -> In g args -> f_run f = f_run g) ->
+  Forall (fun f => extension_try_from (f_ext f) <> None) args ->
+  gaps_ok P None files ->
+  run_rows sort m args = Ok (scan_rows (flat_map (fun f => main_items (f_events f)) files)).
+Proof. exact run_rows_complete_lemma. Qed.
+Print Assumptions C19_run_rows_complete.
+
 Theorem C19_run_refusals :
   forall (P : Type) (sort : list (hdr (file P)) -> list (hdr (file P))) m (args : list (file P)),
   sorting sort -> args <> [] ->
@@ -177,7 +191,8 @@ Example C19_nonvacuous :
     Ok [(0, None); (1, Some (0xFFFFFF00, tt)); (2, None); (3, Some (0xFFFFFF00 + 0x200, tt));
         (4, Some (0xFFFFFF00 + 0x200, tt))]
   /\ run_rows_exec [ex_f1; ex_f2] = run_rows_exec [ex_f2; ex_f1]
-  /\ slow_chain 5 [6; 2 ^ 32 + 4; 2 ^ 33].
+  /\ slow_chain 5 [6; 2 ^ 32 + 4; 2 ^ 33]
+  /\ gaps_ok unit None [ex_f1; ex_f2].
 Proof. vm_compute. repeat split; discriminate. Qed.
 (* the refusals are reachable *)
 Example C19_refusals_nonvacuous :
